@@ -151,6 +151,8 @@ func TestC14Chunk(t *testing.T) {
 				}
 			}()
 			got := 0
+			var kept [][]byte // what Recv returned, held by the application
+			var keptH []int
 			go func() { // receiver (server)
 				defer wg.Done()
 				for got < len(sc.lens) {
@@ -177,6 +179,8 @@ func TestC14Chunk(t *testing.T) {
 					if err != nil {
 						return
 					}
+					kept = append(kept, b)
+					keptH = append(keptH, hash31(b))
 					got++
 				}
 			}()
@@ -190,6 +194,13 @@ func TestC14Chunk(t *testing.T) {
 				quiet = 1
 			}
 			synctest.Wait()
+			bad := 0
+			for k, kb := range kept {
+				if hash31(kb) != keptH[k] {
+					bad++
+				}
+			}
+			emit(map[string]any{"op": "kept", "n": len(kept), "bad": bad})
 			emit(map[string]any{"op": "end", "quiet": quiet, "got": got})
 		}
 		synctest.Test(t, func(t *testing.T) {
